@@ -1,7 +1,7 @@
 """C04 — unweighted sketches have set semantics (structural clauses)."""
 from .. import hirq, nf, slicer
 from ..rulelib import (check_seeds, check_roots, tree_of, slicer_of, user_nodes, writes_to_self, self_method_calls,
-                       hir_dominates, loop_exits, mutating_self_calls, unconditional_within, while_body, short)
+                       hir_dominates, loop_exits, mutating_self_calls, unconditional_within, while_body, short, resolver_of)
 
 SMH = "superminhasher::SuperMinHash::<F, T, H>::"
 SMH2 = "superminhasher2::SuperMinHash2::<I, T, H>::"
@@ -35,16 +35,16 @@ RULES = {
 }
 
 SEED_TABLE = {
-    SMH + "sketch": [dict(callee="seed_from_u64", allowed=["param to_sketch", "self.b_hasher"], required=["param to_sketch"])],
-    SMH2 + "sketch": [dict(callee="seed_from_u64", allowed=["param to_sketch", "self.b_hasher"], required=["param to_sketch"])],
-    SS + "sketch": [dict(callee="seed_from_u64", allowed=["param to_sketch", "self.b_hasher"], required=["param to_sketch"])],
-    OD + "sketch": [dict(callee="seed_from_u64", allowed=["param to_sketch", "self.b_hasher"], required=["param to_sketch"])],
-    RD + "sketch": [dict(callee="seed_from_u64", allowed=["param d", "self.b_hasher"], required=["param d"])],
+    SMH + "sketch": [dict(callee="seed_from_u64", allowed=["param #1:*", "self.b_hasher"], required=["param #1:*"])],
+    SMH2 + "sketch": [dict(callee="seed_from_u64", allowed=["param #1:*", "self.b_hasher"], required=["param #1:*"])],
+    SS + "sketch": [dict(callee="seed_from_u64", allowed=["param #1:*", "self.b_hasher"], required=["param #1:*"])],
+    OD + "sketch": [dict(callee="seed_from_u64", allowed=["param #1:*", "self.b_hasher"], required=["param #1:*"])],
+    RD + "sketch": [dict(callee="seed_from_u64", allowed=["param #1:*", "self.b_hasher"], required=["param #1:*"])],
     OD + "densify": [dict(callee="seed_from_u64", allowed=["len(self.hsketch)"], required=["len(self.hsketch)"])],
     RD + "densify": [dict(callee="seed_from_u64", allowed=["len(self.hsketch)"], required=["len(self.hsketch)"])],
 }
 
-GEN_OK = ["param to_sketch", "param d", "self.b_hasher", "call num::one*", "call num::zero*", "call rand_distr::Uniform*",
+GEN_OK = ["param #1:*", "self.b_hasher", "call num::one*", "call num::zero*", "call rand_distr::Uniform*",
           "len(self.hsketch)", "self.permut_generator"]
 
 
@@ -57,34 +57,31 @@ def _smh(ctx, facts):
     fn = facts.fn(fid)
     t = tree_of(fn)
     sl = slicer_of(fn)
+    R = resolver_of(fn)
     n = 0
     for (w, f, idx) in writes_to_self(fn, "hsketch"):
         n += 1
         where = hirq.loc(w)
-        reg = nf.nf(w["l"], True)
-        val = nf.nf(w["r"], True)
-        conds = nf.all_conditions(t, w)
+        reg = nf.nf(w["l"], True, res=R)
+        val = nf.nf(w["r"], True, res=R)
+        conds = nf.all_conditions(t, w, res=R)
         if w["k"] == "Assign" and _has(conds, val, ("<", "<="), reg):
-            ctx.ok("GUARD", fid, "%s = %s under %s < %s" % (reg, val, val, reg), where)
+            ctx.ok("GUARD", fid, "%s = %s under %s < %s" % (nf.nf(w["l"], True), nf.nf(w["r"], True), nf.nf(w["r"], True), nf.nf(w["l"], True)), where)
         else:
-            ctx.violation("GUARD", fid, "hsketch write", where, "`%s` is not guarded by `%s < %s` (conditions: %s)" % (nf.nf(w)[:60], val, reg, conds[:3]))
+            ctx.violation("GUARD", fid, "hsketch write", where, "`%s` is not guarded by `%s < %s` (conditions: %s)" % (nf.nf(w)[:60], nf.nf(w["r"], True), nf.nf(w["l"], True), conds[:3]))
         check_roots(ctx, "PROV", fid, "value written to hsketch", where, sl.roots(w["r"]), GEN_OK)
-    # marker discipline of the inline shuffle
+    # marker discipline of the inline shuffle: `if q[x] != item_rank { q[x] = item_rank; p[x] = x }`
+    RANK = "self.item_rank"
     for (w, f, idx) in writes_to_self(fn, "p"):
         where = hirq.loc(w)
-        i = nf.nf(idx[0], True)
-        conds = nf.all_conditions(t, w)
+        i = nf.nf(idx[0], True, res=R)
+        conds = nf.all_conditions(t, w, res=R)
         blk = t.parent.get(id(w))
-        mark = [x for (x, ff, ii) in writes_to_self(fn, "q") if t.parent.get(id(x)) is blk and nf.nf(ii[0], True) == i and nf.nf(x["r"], True) == "irank"]
-        if nf.nf(w["r"], True) == i and _has(conds, "irank", ("!=",), "self.q[%s]" % i) and mark:
-            ctx.ok("MARKER", fid, "p[%s] = %s and q[%s] = irank under q[%s] != irank" % (i, i, i, i), where)
+        mark = [x for (x, ff, ii) in writes_to_self(fn, "q") if t.parent.get(id(x)) is blk and nf.nf(ii[0], True, res=R) == i and nf.nf(x["r"], True, res=R) == RANK]
+        if nf.nf(w["r"], True, res=R) == i and (_has(conds, RANK, ("!=",), "self.q[%s]" % i) or _has(conds, "self.q[%s]" % i, ("!=",), RANK)) and mark:
+            ctx.ok("MARKER", fid, "p[x] = x and q[x] = item_rank under q[x] != item_rank (x = %s)" % nf.nf(idx[0], True), where)
         else:
-            ctx.violation("MARKER", fid, "p write", where, "`%s` is not the guarded re-initialisation `if q[x] != irank { q[x] = irank; p[x] = x }`" % nf.nf(w)[:60])
-    irank = [nf.nf(e, True) for e in __import__("pmh.rulelib", fromlist=["x"]).def_exprs(fn, "irank")]
-    if irank == ["self.item_rank"]:
-        ctx.ok("MARKER", fid, "irank = self.item_rank", hirq.loc(fn))
-    else:
-        ctx.violation("MARKER", fid, "irank definition", hirq.loc(fn), "irank is defined as %s, expected self.item_rank" % irank)
+            ctx.violation("MARKER", fid, "p write", where, "`%s` is not the guarded re-initialisation `if q[x] != item_rank { q[x] = item_rank; p[x] = x }`" % nf.nf(w)[:60])
     swaps = self_method_calls(fn, "p", ["swap"])
     if len(swaps) == 1:
         ctx.ok("MARKER", fid, "exactly one p.swap per draw", hirq.loc(swaps[0]))
@@ -93,11 +90,24 @@ def _smh(ctx, facts):
     return n
 
 
+def draw_counter(fn):
+    """name of the draw counter: the local compared with self.a_upper in the guard of the top-level while loop"""
+    t = tree_of(fn)
+    for lp in [x for x in t.nodes if x["k"] == "Loop" and x["src"] == "While" and not t.enclosing_loops(x)]:
+        for (kind, node) in loop_exits(fn, lp):
+            if kind == "guard":
+                for c in nf.all_conditions(t, node, stop=lp):
+                    if c[0] == "cmp" and c[1] == "self.a_upper" and c[2] in ("<", "<="):
+                        return c[3]
+    return "j"
+
+
 def _smh2(ctx, facts):
     fid = SMH2 + "sketch"
     fn = facts.fn(fid)
     t = tree_of(fn)
     sl = slicer_of(fn)
+    J = draw_counter(fn)
     n = 0
     ws = writes_to_self(fn)
     for (w, f, idx) in ws:
@@ -109,17 +119,17 @@ def _smh2(ctx, facts):
         conds = nf.all_conditions(t, w)
         blk = t.parent.get(id(w))
         sib = {ff: x for (x, ff, ii) in ws if t.parent.get(id(x)) is blk and ii and nf.nf(ii[0], True) == k}
-        base = _has(conds, "j", ("<=",), "self.l[%s]" % k)
-        tie = _has(conds, "j", ("==",), "self.l[%s]" % k)
-        lower = _has(conds, "j", ("!=",), "self.l[%s]" % k) or _has(conds, "j", ("<",), "self.l[%s]" % k)
+        base = _has(conds, J, ("<=",), "self.l[%s]" % k)
+        tie = (_has(conds, J, ("==",), "self.l[%s]" % k) or _has(conds, "self.l[%s]" % k, ("==",), J))
+        lower = _has(conds, J, ("!=",), "self.l[%s]" % k) or _has(conds, "self.l[%s]" % k, ("!=",), J) or _has(conds, J, ("<",), "self.l[%s]" % k)
         good = False
         if base and tie and not lower:
             # same level: needs r <= values[k] (64-bit key: tie exempt) and must not touch l
             rv = nf.nf(sib["values"]["r"], True) if "values" in sib else None
             good = rv is not None and (_has(conds, rv, ("<=", "<"), "self.values[%s]" % k)) and "l" not in sib and "hsketch" in sib
-        elif (base and lower) or (lower and nf.has_cmp(conds, "j", ("<",), "self.l[%s]" % k)):
+        elif (base and lower) or (lower and nf.has_cmp(conds, J, ("<",), "self.l[%s]" % k)):
             # strictly lower level: l[k] = j, values and hsketch together
-            good = "l" in sib and nf.nf(sib["l"]["r"], True) == "j" and "values" in sib and "hsketch" in sib
+            good = "l" in sib and nf.nf(sib["l"]["r"], True) == J and "values" in sib and "hsketch" in sib
         if good:
             ctx.ok("GUARD", fid, "%s under %s" % (nf.nf(w)[:40], [c for c in conds[:3]]), where)
         else:
@@ -129,8 +139,11 @@ def _smh2(ctx, facts):
         if f == "values":
             check_roots(ctx, "PROV", fid, "value written to values", where, sl.roots(w["r"]), GEN_OK)
         if f == "hsketch":
-            check_roots(ctx, "PAIR", fid, "hash stored in hsketch", where, sl.roots(w["r"]), ["param to_sketch", "self.b_hasher"], ["param to_sketch"])
+            check_roots(ctx, "PAIR", fid, "hash stored in hsketch", where, sl.roots(w["r"]), ["param #1:*", "self.b_hasher"], ["param #1:*"])
     return n
+
+
+IMAX = "num::Bounded::max_value().to_u64().unwrap()"
 
 
 def _setsketch(ctx, facts):
@@ -138,14 +151,15 @@ def _setsketch(ctx, facts):
     fn = facts.fn(fid)
     t = tree_of(fn)
     sl = slicer_of(fn)
+    R = resolver_of(fn)
     n = 0
     for (w, f, idx) in writes_to_self(fn, "k_vec"):
         n += 1
         where = hirq.loc(w)
-        i = nf.nf(idx[0], True)
-        conds = nf.all_conditions(t, w)
+        i = nf.nf(idx[0], True, res=R)
+        conds = nf.all_conditions(t, w, res=R)
         cur = "self.k_vec[%s].to_u64().unwrap()" % i
-        val = nf.nf(w["r"], True)
+        val = nf.nf(w["r"], True, res=R)
         # the compared value c: cur < c
         c = None
         for it in conds:
@@ -153,24 +167,32 @@ def _setsketch(ctx, facts):
                 c = it[3]
         good = False
         if w["k"] == "Assign" and c is not None:
-            if val == "num::FromPrimitive::from_u64(%s).unwrap()" % c and _has(conds, c, ("<=",), "imax"):
+            if val == "num::FromPrimitive::from_u64(%s).unwrap()" % c and _has(conds, c, ("<=",), IMAX):
                 good = True
-            elif val == "num::FromPrimitive::from_u64(imax).unwrap()" and _has(conds, "imax", ("<",), c):
+            elif val == "num::FromPrimitive::from_u64(%s).unwrap()" % IMAX and _has(conds, IMAX, ("<",), c):
                 good = True   # clamp to the register type's maximum
         if good:
-            ctx.ok("GUARD", fid, "k_vec[%s] = %s under %s < %s" % (i, val[-30:], cur, c), where)
+            ctx.ok("GUARD", fid, "%s under current register < candidate (%s)" % (nf.nf(w, True)[:60], "clamped to I::max" if IMAX in val else "candidate written"), where)
         else:
             ctx.violation("GUARD", fid, "k_vec write", where,
-                          "`%s` is not `k_vec[i] = k` (or its clamp to I::max) under `k > k_vec[i]`; conditions %s" % (nf.nf(w)[:70], conds[:3]))
+                          "`%s` is not `k_vec[i] = k` (or its clamp to I::max_value()) under `k > k_vec[i]`; conditions %s" % (nf.nf(w)[:70], nf.all_conditions(t, w)[:3]))
         check_roots(ctx, "PROV", fid, "value written to k_vec", where, sl.roots(w["r"]),
-                    ["param to_sketch", "self.b_hasher", "self.a", "self.lnb", "self.m", "self.q", "self.permut_generator",
+                    ["param #1:*", "self.b_hasher", "self.a", "self.lnb", "self.m", "self.q", "self.permut_generator",
                      "const rand_distr::Exp1", "call num::Bounded::max_value*"])
-    imax = [nf.nf(e, True) for e in __import__("pmh.rulelib", fromlist=["x"]).def_exprs(fn, "imax")]
-    if imax == ["num::Bounded::max_value().to_u64().unwrap()"]:
-        ctx.ok("GUARD", fid, "imax = I::max_value()", hirq.loc(fn))
-    else:
-        ctx.violation("GUARD", fid, "imax definition", hirq.loc(fn), "the clamp bound is %s, expected I::max_value().to_u64().unwrap()" % imax)
     return n
+
+
+def setsketch_candidate(fn):
+    """resolved normal form of the candidate register value k (the value compared with the current register)"""
+    t = tree_of(fn)
+    R = resolver_of(fn)
+    for (w, f, idx) in writes_to_self(fn, "k_vec"):
+        i = nf.nf(idx[0], True, res=R)
+        cur = "self.k_vec[%s].to_u64().unwrap()" % i
+        for it in nf.all_conditions(t, w, res=R):
+            if it[0] == "cmp" and it[2] == "<" and it[1] == cur:
+                return it[3]
+    return None
 
 
 def _dens_sketch(ctx, facts, prefix):
@@ -219,7 +241,7 @@ def _dens_sketch(ctx, facts, prefix):
         else:
             ctx.violation("GUARD", fid, "%s write" % f, where, "`%s` is not guarded by a comparison of %s with %s; conditions %s" % (nf.nf(w)[:50], r, reg, conds[:2]))
         if f == "values":
-            check_roots(ctx, "PAIR", fid, "hash stored in values", where, sl.roots(w["r"]), ["param to_sketch", "param d", "self.b_hasher"], ["param *"])
+            check_roots(ctx, "PAIR", fid, "hash stored in values", where, sl.roots(w["r"]), ["param #1:*", "self.b_hasher"], ["param #1:*"])
         else:
             check_roots(ctx, "PROV", fid, "value written to hsketch", where, sl.roots(w["r"]), GEN_OK)
     return n
@@ -241,32 +263,37 @@ def _histo(ctx, facts, fid, kind):
         ctx.violation("HISTO", fid, "histogram updates", where, "expected exactly one `b[old] -= 1` and one `b[new] += 1` in the draw loop; found %d decrement(s), %d increment(s), %d write(s) to b" % (len(decs), len(incs), len(bws)))
         return
     (dec, di), (inc, ii) = decs[0], incs[0]
+    R = resolver_of(fn)
+    J = draw_counter(fn)
     blk = t.parent.get(id(dec))
     if t.parent.get(id(inc)) is not blk:
         ctx.violation("HISTO", fid, "histogram updates split", hirq.loc(inc), "the decrement of the old level and the increment of the new level are not in the same block")
         return
-    old, new = nf.nf(di[0], True), nf.nf(ii[0], True)
-    conds = nf.all_conditions(t, dec)
-    ok = new == "j"
+    old, new = nf.nf(di[0], True, res=R), nf.nf(ii[0], True, res=R)
+    old_shown = nf.nf(di[0], True)
+    conds = nf.all_conditions(t, dec, res=R)
+    ok = new == J
     if kind == "smh":
-        # old level j_2 = min(hsketch[p[j]] as usize, m-1) computed before the register is overwritten, moved only if j < j_2
-        from ..rulelib import def_exprs
-        d = [nf.nf(e, True) for e in def_exprs(fn, old)] if old.isidentifier() else []
+        # old level = min(hsketch[p[j]] as usize, m-1) computed before the register is overwritten, moved only if j < old level
+        want = {"std::cmp::min(self.hsketch[self.p[%s]].to_usize().unwrap(), (self.hsketch.len() - 1))" % J,
+                "std::cmp::min((self.hsketch.len() - 1), self.hsketch[self.p[%s]].to_usize().unwrap())" % J,
+                "self.hsketch[self.p[%s]].to_usize().unwrap().min((self.hsketch.len() - 1))" % J}
         regw = [w for (w, f, i) in ws if f == "hsketch"]
-        defn = [n for n in user_nodes(fn) if n["k"] == "Let" and n["pat"]["k"] == "Bind" and n["pat"]["name"] == old]
-        ok = ok and len(d) == 1 and d[0] in ("std::cmp::min(self.hsketch[self.p[j]].to_usize().unwrap(), (m - 1))", "std::cmp::min((m - 1), self.hsketch[self.p[j]].to_usize().unwrap())",
-                                               "self.hsketch[self.p[j]].to_usize().unwrap().min((m - 1))") \
-            and bool(regw) and bool(defn) and hir_dominates(t, defn[0], regw[0]) and nf.has_cmp(conds, "j", ("<",), old) is not None
-        msg = "old level `%s` must be min(hsketch[p[j]] as usize, m-1) read BEFORE the register is overwritten, and the move guarded by j < %s" % (old, old)
+        d0 = nf.strip_casts(di[0])
+        defn = []
+        if d0["k"] == "Path" and "local" in d0["res"]:
+            defn = [n for n in user_nodes(fn) if n["k"] == "Let" and n["pat"]["k"] == "Bind" and n["pat"]["id"] == d0["res"]["local"]]
+        ok = ok and old in want and bool(regw) and bool(defn) and hir_dominates(t, defn[0], regw[0]) and nf.has_cmp(conds, J, ("<",), old) is not None
+        msg = "old level `%s` must be min(hsketch[p[%s]] as usize, m-1) read BEFORE the register is overwritten, and the move guarded by %s < old level" % (old_shown, J, J)
     else:
         # old level is l[k]; l[k] = j must come after the decrement in the same block
         lw = [w for (w, f, i) in ws if f == "l" and t.parent.get(id(w)) is blk]
-        ok = ok and old == "self.l[k]" and len(lw) == 1 and nf.nf(lw[0]["r"], True) == "j" and hir_dominates(t, dec, lw[0])
-        msg = "old level must be self.l[k], decremented before `self.l[k] = j` in the same block"
+        ok = ok and old_shown.startswith("self.l[") and len(lw) == 1 and nf.nf(lw[0]["r"], True) == J and nf.nf(lw[0]["l"], True) == old_shown and hir_dominates(t, dec, lw[0])
+        msg = "old level must be self.l[k], decremented before `self.l[k] = %s` in the same block" % J
     if ok:
-        ctx.ok("HISTO", fid, "b[%s] -= 1; b[%s] += 1 in one guarded block, old level read before the move" % (old, new), hirq.loc(dec))
+        ctx.ok("HISTO", fid, "b[%s] -= 1; b[%s] += 1 in one guarded block, old level read before the move" % (old_shown, J), hirq.loc(dec))
     else:
-        ctx.violation("HISTO", fid, "histogram move", hirq.loc(dec), "b[%s] -= 1 / b[%s] += 1: %s; conditions %s" % (old, new, msg, conds[:2]))
+        ctx.violation("HISTO", fid, "histogram move", hirq.loc(dec), "b[%s] -= 1 / b[%s] += 1: %s; conditions %s" % (old_shown, nf.nf(ii[0], True), msg, nf.all_conditions(t, dec)[:2]))
     # a_upper lowered only while its level is empty, right after the move
     good = len(aws) == 1
     if good:
@@ -297,7 +324,7 @@ def _exit_aupper(ctx, facts, fid):
             continue
         n += 1
         conds = nf.all_conditions(t, node, stop=loop)
-        if kind == "guard" and len(conds) == 1 and conds[0] == ("cmp", "self.a_upper", "<", "j"):
+        if kind == "guard" and len(conds) == 1 and conds[0][:3] == ("cmp", "self.a_upper", "<") and conds[0][3] == draw_counter(fn):
             ctx.ok("EXIT", fid, "draw loop left when j > a_upper", hirq.loc(node))
         else:
             ctx.violation("EXIT", fid, "draw loop exit (%s)" % kind, hirq.loc(node), "the draw loop may only be left when j > self.a_upper; this exit is taken when %s" % (conds[:2],))
@@ -308,33 +335,36 @@ def _exit_setsketch(ctx, facts):
     fid = SS + "sketch"
     fn = facts.fn(fid)
     t = tree_of(fn)
+    R = resolver_of(fn)
     loops = [n for n in t.nodes if n["k"] == "Loop" and not t.enclosing_loops(n) and not hirq.in_log_macro(n)]
     if len(loops) != 1:
         ctx.violation("EXIT", fid, "draw loop", hirq.loc(fn), "expected one top-level loop, found %d" % len(loops))
         return 0
     loop = loops[0]
-    accepted = [("cmp", "-self.lower_k", "<", "lb_xj"), ("cmp", "-lb_xj", "<", "self.lower_k"), ("cmp", "k", "<=", "self.lower_k")]
+    cand = setsketch_candidate(fn)
     n = 0
-    seen = []
     for (kind, node) in loop_exits(fn, loop):
         if kind == "iterator-exhausted":
             continue
         n += 1
-        conds = nf.all_conditions(t, node, stop=loop)
-        if kind == "break" and len(conds) == 1 and conds[0] in accepted:
-            ctx.ok("EXIT", fid, "break when %s" % (conds[0],), hirq.loc(node))
-            seen.append(conds[0])
+        conds = nf.all_conditions(t, node, stop=loop, res=R)
+        shown = nf.all_conditions(t, node, stop=loop)
+        ok = False
+        if kind == "break" and len(conds) == 1 and conds[0][0] == "cmp":
+            _c, a, op, b = conds[0]
+            import re as _re
+            lb = r"^\(.+\.ln\(\) / self\.lnb\)$"
+            if op == "<" and a == "-self.lower_k" and _re.match(lb, b):
+                ok = True                       # lb_xj > -lower_k
+            elif op == "<" and b == "self.lower_k" and a.startswith("-") and _re.match(lb, a[1:]):
+                ok = True                       # -lb_xj < lower_k
+            elif op == "<=" and b == "self.lower_k" and cand is not None and a == cand:
+                ok = True                       # k <= lower_k
+        if ok:
+            ctx.ok("EXIT", fid, "break when %s" % (shown[0],), hirq.loc(node))
         else:
             ctx.violation("EXIT", fid, "break", hirq.loc(node),
-                          "the draw loop may only be left on `lb_xj > -lower_k` or `k <= lower_k` (unmodified lower bound, tabled strictness); this exit is taken when %s" % (conds[:2],))
-    # the quantities compared come from the current draw
-    sl = slicer_of(fn)
-    from ..rulelib import def_exprs
-    lb = [nf.nf(e, True) for e in def_exprs(fn, "lb_xj")]
-    if lb != ["(x_j.ln() / self.lnb)"]:
-        ctx.violation("EXIT", fid, "lb_xj definition", hirq.loc(fn), "lb_xj is %s, expected x_j.ln() / self.lnb" % lb)
-    else:
-        ctx.ok("EXIT", fid, "lb_xj = ln(x_j)/lnb", hirq.loc(fn))
+                          "the draw loop may only be left on `log_b(x_j) > -lower_k` or `k <= lower_k` (k the candidate register value, unmodified lower bound, tabled strictness); this exit is taken when %s" % (shown[:2],))
     return n
 
 
@@ -402,8 +432,9 @@ def deleg_slice(ctx, facts, fid, finisher=None, rule="DELEG"):
             return
     from ..rulelib import for_loops
     fl = [f for f in for_loops(fn) if f["loop"] is loops[0]]
-    if not fl or nf.nf(fl[0]["iter"]) != "to_sketch" or nf.nf(c["args"][0]) != hirq.show_pat(fl[0]["pat"]):
-        ctx.violation(rule, fid, "element argument", hirq.loc(c), "the loop must range over the whole slice `to_sketch` and pass each element unchanged; found iter `%s`, arg `%s`"
+    SLICE = hirq.show_pat(fn["params"][1]["pat"])
+    if not fl or nf.nf(fl[0]["iter"]) != SLICE or nf.nf(c["args"][0]) != hirq.show_pat(fl[0]["pat"]):
+        ctx.violation(rule, fid, "element argument", hirq.loc(c), "the loop must range over the whole input slice and pass each element unchanged; found iter `%s`, arg `%s`"
                       % (nf.nf(fl[0]["iter"]) if fl else "?", nf.nf(c["args"][0])))
         return
     allowed_mut = {id(c)}
